@@ -752,16 +752,18 @@ func roots(thorough bool) []rootSpec {
 	snap := Op{K: "Snap"}
 	r1 := []Op{w(1), w(2), snap, w(1), w(3), snap}
 	r2 := []Op{w(1), snap, w(1), w(2), snap, w(2), w(3), snap}
+	r1b := []Op{{K: "Wb"}, snap, w(2), w(3), snap} // generations {1,3} and {2,3}: overlapping blocks whose merge exceeds a block
 	if thorough {
-		return []rootSpec{{nil, 6, 2}, {r1, 4, 1}, {r2, 3, 1}}
+		r3 := []Op{w(1), snap, w(1), w(2), snap, w(2), w(3), snap, w(3), w(1), snap}
+		return []rootSpec{{nil, 6, 2}, {r1, 5, 1}, {r1b, 4, 1}, {r2, 4, 1}, {r3, 2, 1}}
 	}
-	return []rootSpec{{nil, 4, 2}, {r1, 2, 1}, {r2, 2, 1}}
+	return []rootSpec{{nil, 4, 2}, {r1, 2, 1}, {r1b, 2, 1}, {r2, 2, 1}}
 }
 
 func TestCheck(t *testing.T) {
 	vlib.Main(t, &vlib.Check{
 		ID: "C01", Level: "model_checking",
-		Rule: "histories over the alphabet {W(f,t) for t∈{1,2,3} (float field, value = running counter, so every overwrite is distinguishable), Wbatch(f,[t=3,t=1]) in one WritePoints call, W(g,t=2) on a second field of type integer, Snap (Engine.WriteSnapshot), SnapBegin / SnapEnd (the two halves of Engine.doWriteSnapshot: close WAL segment + Cache.Snapshot | Deduplicate + writeSnapshotAndCommit, so that writes, reads, compactions and a reopen happen while a cache snapshot is in flight), Compact[i..j] of every interval of ≥2 adjacent generations with the engine's fast (CompactFast) and full (CompactFull) strategies, Opt (optimize strategy at aggressive points-per-block over all files), Reopen (close + open, WAL replay)} on a real tsm1.Engine with WAL; explicit-state BFS to depth D from three roots: the empty shard (D = 4 quick, 6 thorough), the 2-generation layout W1 W2 Snap W1 W3 Snap (D = 2, 4) and the 3-generation layout W1 Snap W1 W2 Snap W2 W3 Snap (D = 2, 3): a transition replays the whole history on a fresh engine, then reads every range [a,b]⊆[0,4] ascending and descending through CreateCursorIterator array cursors for both fields, and the TSM-resident part from every seek time in both directions through KeyCursor, and compares with a map model (latest acknowledged value per timestamp); the reached state is keyed by what the implementation holds (cache contents and, per TSM file oldest→newest, level and contents, each stored version abstracted to latest/overwritten) and expanded only once. The first 1–2 levels below each root are explored by every worker, that frontier is dealt round-robin. The build uses DefaultMaxPointsPerBlock = 2 instead of 1000 (small-constant build) so that the three timestamps of a field span two TSM blocks and block-level merging in CompactFast/CompactFull/KeyCursor is exercised. states = distinct canonical keys, transitions = executed histories, traces = histories replayed on the implementation; non-trivial = transitions whose history contains a Snap or compaction and an overwrite",
+		Rule: "histories over the alphabet {W(f,t) for t∈{1,2,3} (float field, value = running counter, so every overwrite is distinguishable), Wbatch(f,[t=3,t=1]) in one WritePoints call, W(g,t=2) on a second field of type integer, Snap (Engine.WriteSnapshot), SnapBegin / SnapEnd (the two halves of Engine.doWriteSnapshot: close WAL segment + Cache.Snapshot | Deduplicate + writeSnapshotAndCommit, so that writes, reads, compactions and a reopen happen while a cache snapshot is in flight), Compact[i..j] of every interval of ≥2 adjacent generations with the engine's fast (CompactFast) and full (CompactFull) strategies, Opt (optimize strategy at aggressive points-per-block over all files), Reopen (close + open, WAL replay)} on a real tsm1.Engine with WAL; explicit-state BFS to depth D from root layouts (themselves histories): the empty shard (D = 4 quick, 6 thorough), the 2-generation layouts W1 W2 Snap W1 W3 Snap (D = 2, 5) and Wbatch(3,1) Snap W2 W3 Snap (D = 2, 4), the 3-generation layout W1 Snap W1 W2 Snap W2 W3 Snap (D = 2, 4) and, thorough only, the 4-generation layout W1 Snap W1 W2 Snap W2 W3 Snap W3 W1 Snap (D = 2): a transition replays the whole history on a fresh engine, then reads every range [a,b]⊆[0,4] ascending and descending through CreateCursorIterator array cursors for both fields, and the TSM-resident part from every seek time in both directions through KeyCursor, and compares with a map model (latest acknowledged value per timestamp); the reached state is keyed by what the implementation holds (cache contents and, per TSM file oldest→newest, level and contents, each stored version abstracted to latest/overwritten) and expanded only once. The first 1–2 levels below each root are explored by every worker, that frontier is dealt round-robin. The build uses DefaultMaxPointsPerBlock = 2 instead of 1000 (small-constant build) so that the three timestamps of a field span two TSM blocks and block-level merging in CompactFast/CompactFull/KeyCursor is exercised. states = distinct canonical keys, transitions = executed histories, traces = histories replayed on the implementation; non-trivial = transitions whose history contains a Snap or compaction and an overwrite",
 		Assumptions: []string{
 			"the engine is deterministic for a given history when its background loops are off (prefixes are re-executed, not re-checked)",
 			"WAL segment layout and tsi1/series-file contents are not part of the state key (one shared tsi1 index + series file per worker, holding the single series key)",
